@@ -30,6 +30,30 @@ def fresh(ty, hint='v'):
     return SymVal(ty, z3.Const(fresh_name(hint), T.sort_of(ty)))
 
 
+_CANON = {}
+
+
+def canon(ty, hint, *arg_terms):
+    """the result of a *pure* operation as an application of a global uninterpreted function to
+    its operands (instead of a fresh constant): equal operands give the same result by
+    congruence.  The caller still states the defining axioms for this application."""
+    key = (hint, T.sort_of(ty).name(), tuple(a.sort().name() for a in arg_terms))
+    if key not in _CANON:
+        _CANON[key] = z3.Function(f"{hint}!fn{len(_CANON)}", *([a.sort() for a in arg_terms] + [T.sort_of(ty)]))
+    return SymVal(ty, _CANON[key](*arg_terms))
+
+
+_SET_WIT = {}
+
+
+def set_witness(ty, term):
+    """some member of a non-empty set (global choice function per sort)"""
+    s = T.sort_of(ty)
+    if s.name() not in _SET_WIT:
+        _SET_WIT[s.name()] = z3.Function(f"setwit!{len(_SET_WIT)}", s, T.sort_of(ty[1]))
+    return _SET_WIT[s.name()](term)
+
+
 def const_int(n):
     return SymVal(T.INT, z3.IntVal(int(n)), ('const', int(n)))
 
@@ -55,11 +79,68 @@ def literal(s):
 
 
 def literal_axioms():
-    """pairwise order of the string literals seen so far, as CPython orders them"""
+    """pairwise order of the string literals seen so far, as CPython orders them; their lengths;
+    facts about the f-string templates seen so far (see fstr_function)"""
     items = sorted(_LITERALS.items(), key=lambda kv: kv[0])
     out = []
     for (a, ta), (b, tb) in zip(items, items[1:]):
         out.append(ta < tb)
+    if _STRLEN_USED[0]:
+        for s, t in items:
+            out.append(STRLEN(t) == len(s))
+    out += fstr_axioms(items)
+    return out
+
+
+# ---- string length and f-strings (A-STR) ---------------------------------------------------
+# len(s) of a string is an uninterpreted function of the abstract name with: the exact value for
+# literals, additivity over `+`, and a lower bound for f-strings (constant segments + parts).
+STRLEN = z3.Function('strlen', z3.IntSort(), z3.IntSort())
+_STRLEN_USED = [False]
+_FSTR = {}   # (template, part kinds) -> (function, constant segments, part kinds)
+
+
+def strlen(term):
+    _STRLEN_USED[0] = True
+    return STRLEN(term)
+
+
+def fstr_function(segments, kinds):
+    """an f-string is a *function* of its formatted parts: one uninterpreted function per
+    template (constant segments + format specs) and per part kinds ('name' | 'int').
+    Nothing else is assumed about it except (fstr_axioms) that its value differs from every
+    literal that cannot be produced by the template, and a lower bound on its length."""
+    key = (tuple(segments), tuple(kinds))
+    if key not in _FSTR:
+        f = z3.Function(f"fstr!{len(_FSTR)}", *([z3.IntSort()] * len(kinds) + [z3.IntSort()]))
+        _FSTR[key] = (f, tuple(segments), tuple(kinds))
+    return _FSTR[key][0]
+
+
+def fstr_axioms(literal_items):
+    import re
+    out = []
+    for (segments, kinds), (f, _, _) in _FSTR.items():
+        if not kinds:
+            continue
+        xs = [z3.Int(f"fs!{i}") for i in range(len(kinds))]
+        app = f(*xs)
+        consts = [s for s in segments if not s.startswith('\x00')]
+        # segments alternate: constant text / '\x00spec' placeholders
+        pat = ''.join('.*' if s.startswith('\x00') else re.escape(s) for s in segments)
+        rx = re.compile(pat, re.S)
+        diffs = [app != t for s, t in literal_items if rx.fullmatch(s) is None]
+        if diffs:
+            out.append(z3.ForAll(xs, z3.And(*diffs), patterns=[app]))
+        if _STRLEN_USED[0]:
+            lo = sum(len(s) for s in consts)
+            parts = [STRLEN(x) if k == 'name' else z3.IntVal(1 if k == 'int' else 0)
+                     for x, k in zip(xs, kinds)]
+            out.append(z3.ForAll(xs, STRLEN(app) >= lo + z3.Sum(parts) if parts else STRLEN(app) >= lo,
+                                 patterns=[app]))
+    if _STRLEN_USED[0]:
+        x = z3.Int('sl!x')
+        out.append(z3.ForAll([x], STRLEN(x) >= 0, patterns=[STRLEN(x)]))
     return out
 
 
@@ -94,6 +175,8 @@ def wf(v, depth=0):
         out.append(T.acc(ty, 'card')(t) >= 0)
         kk = z3.Const(fresh_name('wfk'), T.sort_of(ty[1]))
         out.append(z3.ForAll([kk], z3.Implies(T.acc(ty, 'has')(t)[kk], T.acc(ty, 'card')(t) >= 1)))
+        # ... and a set with a positive cardinality has a member
+        out.append(z3.Implies(T.acc(ty, 'card')(t) >= 1, T.acc(ty, 'has')(t)[set_witness(ty, t)]))
     elif k == 'tuple':
         for i, et in enumerate(ty[1]):
             out += wf(SymVal(et, T.acc(ty, f'f{i}')(t)), depth + 1)
@@ -159,9 +242,14 @@ def seq_append_ax(state, v, x, hint='app'):
     n = seq_len(v)
     r = fresh(v.ty, hint)
     j = z3.Int(fresh_name('aj'))
-    state.assume(seq_len(r) == n + 1, seq_at(r, n) == x,
-                 z3.ForAll([j], z3.Implies(z3.And(0 <= j, j < n), seq_at(r, j) == seq_at(v, j)),
-                           patterns=[seq_at(r, j), seq_at(v, j)]))
+    body = z3.Implies(z3.And(0 <= j, j < n), seq_at(r, j) == seq_at(v, j))
+    try:
+        q = z3.ForAll([j], body, patterns=[seq_at(r, j), seq_at(v, j)])
+    except z3.Z3Exception:
+        # the receiver term is not a legal trigger (e.g. it contains an ite: xs[i].append(..)
+        # with a possibly negative i): trigger on the new sequence only
+        q = z3.ForAll([j], body, patterns=[seq_at(r, j)])
+    state.assume(seq_len(r) == n + 1, seq_at(r, n) == x, q)
     return r
 
 
